@@ -2,7 +2,7 @@
 From DltV.Model Require Import Bytes RustInt Utf8 Nom Dlt Parse Wire.
 From DltV.Spec Require Import WellFormed.
 From DltV.Spec Require Layout.
-From DltV.Model Require Import Stats Reader Stream Float FibexWire.
+From DltV.Model Require Import Stats Reader Stream Float FibexWire Scan.
 Open Scope N_scope.
 
 Definition w_cres (x : option (list argument)) : list wtok :=
@@ -278,6 +278,23 @@ Definition op_specenc (ts : list wtok) : list wtok :=
     if message_bytes_overflows m then [WN 1]
     else [WN 0; WB (if wf_message m then Layout.spec_encode m else message_bytes m)]).
 
+(* 33 SCAN: collect_statistics over the reader model on ARBITRARY byte streams (C10, error paths included) *)
+Definition w_stat_full (s : statistic_full) : list wtok :=
+  w_opt w_log_level (fs_level s) ++ w_opt w_sh (fs_storage s) ++ w_std (fs_std s)
+  ++ w_opt w_ext (fs_ext s) ++ [WB (fs_payload s)] ++ w_bool (fs_verbose s).
+Definition w_scan_end (e : scan_end) : list wtok :=
+  match e with
+  | ScanOk => [WN 0]
+  | ScanErr x => WN 1 :: w_perr x
+  | ScanPanic => [WN 9]
+  | ScanFuel => [WN 8]
+  end.
+Definition op_scan (ts : list wtok) : list wtok :=
+  run_rd (rlet sh := r_bool in rlet sched := r_list r_n in rlet s := r_bytes in rret (sh, sched, s)) ts
+    (fun '(sh, sched, s) =>
+       let '(l, e) := scan sched s sh in
+       w_list w_stat_full l ++ w_scan_end e ++ w_si (fst (collect_statistics sched s sh))).
+
 Definition run_case (op : N) (ts : list wtok) : list wtok :=
   match op with
   | 1 => run_rd r_n ts (fun ms => w_chk w_ts (from_ms ms))
@@ -317,6 +334,7 @@ Definition run_case (op : N) (ts : list wtok) : list wtok :=
   | 31 => op_prefix_at ts
   | 29 => op_streamj ts
   | 32 => op_stats ts
+  | 33 => op_scan ts
   | 40 => op_read ts
   | 41 => op_async ts
   | 42 => run_rd r_arg ts (fun a => w_chk (w_opt w_n) (to_real_value a))
